@@ -710,7 +710,16 @@ def meaning(cs, sv: SpecView, c: Cand):
         return expr3(cs["expr"], sv, c)
     if k == "ForceApplyNOptionalConstraints":
         if c.model is None:
-            return U
+            # generated candidate: the applied flags are existential.  Any subset of the
+            # optional constraints that hold can be applied, so the achievable counts are
+            # 0 .. (number that hold).
+            by_id = {x["id"]: x for x in sv.spec.get("constraints", [])}
+            sts = [meaning(by_id[x], sv, c) for x in cs["constraints"] if x in by_id]
+            if len(sts) != len(cs["constraints"]) or U in sts:
+                return U
+            can = sum(1 for x in sts if x == V)
+            mode, n = cs.get("mode", "exact"), cs["nb"]
+            return b3(True if mode == "max" else can >= n)
         vals = [c.model.get(f"app:{x}") for x in cs["constraints"]]
         if any(v is None for v in vals):
             return U
@@ -794,10 +803,7 @@ def eval_constraints(sv: SpecView, c: Cand, f: Findings):
             if c.model is None:
                 # generated candidate: an optional constraint may be left unapplied, so it
                 # excludes nothing - unless a force-apply rule counts it (then: unspecified)
-                forced = any(x["kind"] == "ForceApplyNOptionalConstraints" and cs["id"] in x["constraints"] for x in sv.spec.get("constraints", []))
-                if forced:
-                    f.add("C10", "applied_not_holding", kinds, U)
-                continue
+                continue  # (a force-apply rule that counts it is judged at that rule)
             applied = c.model.get(f"app:{cs['id']}")
             if applied is None:
                 f.add("C10", "applied_not_holding", kinds, U)
